@@ -92,3 +92,7 @@ impl<'a> s2n_codec::DecoderParameterizedValueMut<'a> for Packet<'a> {
         }
     }
 }
+
+#[cfg(all(aws_s2n_quic_verif, any(test, kani)))]
+#[path = "/verif/harness/dc/packet.rs"]
+mod verif;
